@@ -31,7 +31,12 @@ class Phases:
     def __init__(self, repo: Repo):
         self.repo = repo
         self.graph = CallGraph(repo)
-        self.exec_set = self.graph.reachable(EXEC_ENTRIES, stop=[PARSE_ENTRY])
+        # request-time hooks of the built-in directives are invoked through getattr(implementation, key),
+        # which the reference graph cannot follow: they are explicit entry points of the EXEC phase
+        hooks = [f.fq for f in repo.all_funcs() if f.module.relpath.startswith("tartiflette/directive/builtins/") and f.cls is not None
+                 and f.name.startswith("on_") and f.name != "on_post_bake"]
+        self.exec_entries = EXEC_ENTRIES + sorted(hooks)
+        self.exec_set = self.graph.reachable(self.exec_entries, stop=[PARSE_ENTRY])
         self.parse_set = self.graph.reachable([PARSE_ENTRY])
         self.exec_prov = Provenance(self.graph, self.exec_set, trusted_params=("info",))
         self.parse_prov = Provenance(self.graph, self.parse_set)
